@@ -159,6 +159,25 @@ def replay_vectors(args):
                     bad(v, "varint encoded differently from the specification", len=v["len"])
                 if PE.varint_decode(data, 0)[0] != want if hasattr(PE, "varint_decode") else False:
                     out["pq"].append({"kind": kind, "what": "pqspec varint differs"})
+            elif kind == "levelblock":
+                n = bits_to_int(v["countbits"])
+                out["evals"] += 2
+                import fastparquet.core as CORE
+                import fastparquet.writer as WR
+                inp = CE.NumpyIO(np.frombuffer(data + b"\xee" * 8, dtype="uint8"))
+                CORE.skip_definition_bytes(inp, n)
+                if inp.tell() != len(data):
+                    bad(v, "skip over a null-free level block stops at byte %d of %d" % (inp.tell(), len(data)), len=v["len"])
+
+                class Counted:            # make_definitions(no_nulls=True) only takes the length of its data
+                    def __len__(self):
+                        return n
+                try:
+                    block, _ = WR.make_definitions(Counted(), True)
+                    if bytes(block) != data:
+                        bad(v, "level block of a null-free page written differently from the specification", len=v["len"])
+                except Exception as e:  # noqa
+                    bad(v, "writing the level block of a null-free page raised", exc=type(e).__name__, len=v["len"])
             elif kind == "bool":
                 want = list(v["bits"])
                 n = len(want)
